@@ -35,18 +35,8 @@ def self_field(o):
 OVERLAYS = ("K2b",)
 
 
-def run(chk):
-    P = mir.Program("K1")
-    chk.use_program(P)
-    chk.explain("Typestate rules over built MIR of emit::span::SpanGuard and its collaborators: R1 completion call "
-                "sites and their three-way match on (state.take(), data.take(), completion.take()); R2 Drop and "
-                "complete() route through complete_default; R3 start() only moves Initial to Started and restores any "
-                "other state; R4 enablement is monotone across every SpanGuard aggregate construction; R5 builders "
-                "take state and data so the consumed guard is inert; R6 Timer reads the clock once at start and once "
-                "at extent; R7 the default completion's panic arm; level plumbing of the macro completion hooks. "
-                "Thorough tier adds the macro call-site corpus (K4) and consume-on-complete compile_fail witnesses.")
-    chk.trust("rustc nightly: type checking, MIR construction; Option::take/map, mem::replace contracts")
-    chk.exhaustive = True
+def completion_rules(chk, P, prefix):
+    """R1: who may complete a span, and under which taken fields (shared with C18: a disabled span never completes)."""
     adt = P.adt("emit::span::SpanGuardState")
     variants = [v["name"] for v in adt["variants"]]
 
@@ -65,7 +55,7 @@ def run(chk):
         if [mir._strip_lifetimes(x) for x in owners] != [mir._strip_lifetimes(x) for x in want]:
             return False, "Completion::complete is called from %s; only complete_default and complete_with may complete a span" % owners, [], (sites[0][1].loc if sites else None)
         return True, "", [c.loc for b, c in sites]
-    chk.ob("C05.R1:who-may-complete", "within SpanGuard, Completion::complete is called only by complete_default and complete_with", r1_who)
+    chk.ob("%s.R1:who-may-complete" % prefix, "within SpanGuard, Completion::complete is called only by complete_default and complete_with", r1_who)
 
     def completion_site(method, recv_is_param):
         def f():
@@ -124,10 +114,26 @@ def run(chk):
                         return False, "returns %s on a path that %s complete" % (v, "does" if c.bb in ps.pos else "does not"), [], c.loc
             return True, "", [c.loc]
         return f
-    chk.ob("C05.R1:complete_default", "complete_default completes only under (Started, Some, Some) of the three taken fields, at most once",
+    chk.ob("%s.R1:complete_default" % prefix, "complete_default completes only under (Started, Some, Some) of the three taken fields, at most once",
            completion_site("complete_default", False))
-    chk.ob("C05.R1:complete_with", "complete_with completes only under (Started, Some, Some) of the three taken fields, with the given completion",
+    chk.ob("%s.R1:complete_with" % prefix, "complete_with completes only under (Started, Some, Some) of the three taken fields, with the given completion",
            completion_site("complete_with", True))
+    return guard_bodies, variants
+
+
+def run(chk):
+    P = mir.Program("K1")
+    chk.use_program(P)
+    chk.explain("Typestate rules over built MIR of emit::span::SpanGuard and its collaborators: R1 completion call "
+                "sites and their three-way match on (state.take(), data.take(), completion.take()); R2 Drop and "
+                "complete() route through complete_default; R3 start() only moves Initial to Started and restores any "
+                "other state; R4 enablement is monotone across every SpanGuard aggregate construction; R5 builders "
+                "take state and data so the consumed guard is inert; R6 Timer reads the clock once at start and once "
+                "at extent; R7 the default completion's panic arm; level plumbing of the macro completion hooks. "
+                "Thorough tier adds the macro call-site corpus (K4) and consume-on-complete compile_fail witnesses.")
+    chk.trust("rustc nightly: type checking, MIR construction; Option::take/map, mem::replace contracts")
+    chk.exhaustive = True
+    guard_bodies, variants = completion_rules(chk, P, "C05")
 
     # ---------------- R2 ---------------------------------------------------------------------------------
     def routes(key, what):
